@@ -143,10 +143,10 @@ def make_value(kind, name, c):
     if k == "small":        # ('small', lo, hi): concretised by forking one path per value
         v = z3.Int(name)
         c.assume(z3.And(v >= kind[1], v < kind[2]))
-        for kk in range(kind[1], kind[2] - 1):
-            if c.decide(v == kk):
-                return kk
-        return kind[2] - 1
+        r = c.choose(v, range(kind[1], kind[2]), complete=True)
+        if r is None:
+            raise PathEnd()
+        return r
     raise ValueError("unknown kind %r" % (kind,))
 
 
@@ -194,6 +194,12 @@ def unjson(v):
     if isinstance(v, list):
         return [unjson(x) for x in v]
     return v
+
+
+def _ename(etype):
+    if isinstance(etype, tuple):
+        return "|".join(t.__name__ for t in etype)
+    return etype.__name__
 
 
 def _ceval(fn, env, what):
@@ -317,11 +323,10 @@ class _VcRuntime:
             if clo is not None and chi is not None and chi - clo <= 256:
                 # small concrete range: one path per loop index (the invariant is
                 # then checked for every index separately -- still for all values)
-                for kk in range(clo, max(chi, clo)):
-                    if c.decide(p.e == kk):
-                        cur.cur = kk
-                        return cur
-                cur.cur = max(chi, clo)
+                r = c.choose(p.e, range(clo, max(chi, clo) + 1), complete=True)
+                if r is None:
+                    raise PathEnd()
+                cur.cur = r
             return cur
         if kind == "iter":
             if not isinstance(cur, SymIter):
@@ -925,7 +930,7 @@ def _run_path(contract, gridpoint, call_fn, rt, c, res):
         for (etype, when) in contract.raises:
             if isinstance(exc, etype):
                 matched = True
-                c.oblige("raises-only-when:%s" % etype.__name__, _ceval(when, env, "raises clause"))
+                c.oblige("raises-only-when:%s" % _ename(etype), _ceval(when, env, "raises clause"))
         if not matched:
             if isinstance(exc, contract.allow_exceptions):
                 return
@@ -936,7 +941,7 @@ def _run_path(contract, gridpoint, call_fn, rt, c, res):
         return
     for (etype, when) in contract.raises:
         from .spec import not_
-        c.oblige("raises-when:%s" % etype.__name__, not_(_ceval(when, env, "raises clause")))
+        c.oblige("raises-when:%s" % _ename(etype), not_(_ceval(when, env, "raises clause")))
     # 5. normal postconditions
     if contract.ensures:
         posts = _ceval(contract.ensures, env, "ensures")
